@@ -358,3 +358,31 @@ Proof.
   destruct Hfin as [-> ->].
   exists g'. cbn [w_reg w_hub w_env set_reg set_env]. splits; auto.
 Qed.
+
+(** C13: subsequent bonds are delegated only to validators that are registered at that moment — in
+    particular never to a validator that has been removed and not re-added *)
+Theorem later_bonds_avoid_removed w h self sender funds k h' out g v :
+  execute_bond w h self sender funds k = Some (h', out) ->
+  w_reg w = Some g -> ~ In v (rg_vals g) ->
+  forall v' c, In (MDelegate v' c) out -> In v' (rg_vals g) /\ v' <> v.
+Proof.
+  intros H Hg Hnin v' c Hi. apply bond_delegates_all in H.
+  destruct H as (pay & h1 & g0 & _ & _ & _ & _ & Hg0 & _ & _ & _ & _ & Ht & _).
+  rewrite Hg in Hg0. inversion Hg0; subst g0. destruct (Ht v' c Hi) as (A & _).
+  split; [exact A|]. intros ->. contradiction.
+Qed.
+
+(** C13 along histories: the removal may happen at any point of any operation history (pending
+    rewards, open and in-flight unbonding batches, earlier slashing, earlier removals / re-additions) *)
+Theorem remove_tx_end_reachable ut ops sender v funds w' tr g amt :
+  let w := run_ops ops (empty_world ut) in
+  w_reg w = Some g -> rg_hub g = A_hub ->
+  delegation (w_env w) A_hub v = Some amt -> can_redelegate (w_env w) v = true ->
+  run tx_fuel w [(sender, MWasm A_reg (WReg (GRemove v)) funds)] [] = Some (w', tr) ->
+  exists g',
+    sender = rg_owner g /\ w_reg w' = Some g' /\ rg_vals g' = remove_val v (rg_vals g) /\
+    ~ In v (rg_vals g') /\ rg_vals g' <> [] /\
+    dv (w_env w') A_hub v = 0 /\ (0 < amt -> delegation (w_env w') A_hub v = None).
+Proof.
+  intros w Hg Hhub Hdel Hcan H. eapply remove_tx_end; eauto. apply (EntWf_reachable ut ops).
+Qed.
